@@ -23,6 +23,8 @@ BASES = {
     "model0": ({"$ref": REF + "Opt"}, {}, None), "listmodel0": (arr({"$ref": REF + "Sub"}), [], None), "listdate0": (arr({"type": "string", "format": "date"}), [], None),
     "model": ({"$ref": REF + "Sub"}, {"n": 1}, None), "liststr": (arr({"type": "string"}), ["x"], None), "listdate": (arr({"type": "string", "format": "date"}), ["2020-01-31"], None),
     "listmodel": (arr({"$ref": REF + "Sub"}), [{"n": 2}], None), "any": ({}, "anything", None),
+    # an explicitly typed object composed by allOf of two components: nullability written on the TYPE must still reach the property
+    "objallof": ({"type": "object", "allOf": [{"$ref": REF + "Sub"}, {"$ref": REF + "Opt"}]}, {"n": 1, "w": "x"}, None),
 }
 NOTATIONS = ["plain", "n30", "n31", "anyof", "oneof", "enumnull"]
 
